@@ -20,6 +20,93 @@ type Rendering struct {
 	// IfaceData holds template-data written in the `config` of single interfaces, keyed by
 	// "<package dir>/<interface>" (only used when the interfaces are listed).
 	IfaceData map[string]map[string]any `json:"iface_data,omitempty"`
+	// IfaceConfigs holds the entries of a `configs:` list of single interfaces (same key):
+	// several mocks of one interface in the same output file, each with its own structname
+	// and template-data.
+	IfaceConfigs map[string][]MockCfg `json:"iface_configs,omitempty"`
+}
+
+// MockCfg is one entry of an interface's `configs:` list.
+type MockCfg struct {
+	StructName string         `json:"structname"`
+	Data       map[string]any `json:"data,omitempty"`
+}
+
+// MockTarget is one mock type mockery has to generate.
+type MockTarget struct {
+	StructName string
+	Data       map[string]any // effective template-data (entry over interface over root)
+}
+
+// MockTargets lists the mocks of one interface: one named Mock<Iface>, or one per entry of
+// its `configs:` list.
+func (r Rendering) MockTargets(p *Pkg, iface string) []MockTarget {
+	base := r.EffectiveData(p, iface)
+	entries := r.IfaceConfigs[IfaceKey(p, iface)]
+	if r.All || len(entries) == 0 {
+		return []MockTarget{{StructName: "Mock" + iface, Data: base}}
+	}
+	var out []MockTarget
+	for _, e := range entries {
+		d := map[string]any{}
+		for k, v := range base {
+			d[k] = v
+		}
+		for k, v := range e.Data {
+			d[k] = v
+		}
+		out = append(out, MockTarget{StructName: e.StructName, Data: d})
+	}
+	return out
+}
+
+// GenIfaceConfigs draws `configs:` lists (2-3 mocks of one interface in one file, differing in
+// structname and in the per-mock template-data options) for some interfaces.
+func (r *Rendering) GenIfaceConfigs(t *rapid.T, m *Module) {
+	if r.All || rapid.IntRange(0, 2).Draw(t, "ifaceconfigs") != 0 {
+		return
+	}
+	keys := []string{"unroll-variadic"}
+	if r.Template == "matryer" {
+		keys = []string{"stub-impl", "skip-ensure"}
+	}
+	for pi := range m.Pkgs {
+		p := &m.Pkgs[pi]
+		taken := map[string]bool{}
+		for _, it := range p.Ifaces {
+			taken["Mock"+it.Name] = true
+		}
+		for _, it := range p.Ifaces {
+			if it.Alias || !it.Exported() || rapid.IntRange(0, 1).Draw(t, "configs-for") != 0 {
+				continue
+			}
+			n := rapid.IntRange(2, 3).Draw(t, "nconfigs")
+			var entries []MockCfg
+			for i := 0; i < n; i++ {
+				name := []string{"Mock" + it.Name, it.Name + "Stub", it.Name + "Alt"}[i]
+				if i > 0 && taken[name] {
+					continue
+				}
+				taken[name] = true
+				e := MockCfg{StructName: name}
+				for _, k := range keys {
+					switch rapid.IntRange(0, 2).Draw(t, "cfgdata:"+k) {
+					case 1:
+						e.Data = map[string]any{k: true}
+					case 2:
+						e.Data = map[string]any{k: false}
+					}
+				}
+				entries = append(entries, e)
+			}
+			if len(entries) > 1 {
+				if r.IfaceConfigs == nil {
+					r.IfaceConfigs = map[string][]MockCfg{}
+				}
+				r.IfaceConfigs[IfaceKey(p, it.Name)] = entries
+			}
+		}
+	}
 }
 
 // IfaceKey is the key of an interface in Rendering.IfaceData.
@@ -181,8 +268,23 @@ func (r Rendering) ConfigYAML(m *Module, extra map[string]any) string {
 				if it.Alias {
 					continue // an alias is not a type of its own and cannot be listed
 				}
+				ic := map[string]any{}
 				if d := r.IfaceData[IfaceKey(p, it.Name)]; len(d) > 0 {
-					ifs[it.Name] = map[string]any{"config": map[string]any{"template-data": d}}
+					ic["config"] = map[string]any{"template-data": d}
+				}
+				if es := r.IfaceConfigs[IfaceKey(p, it.Name)]; len(es) > 0 {
+					var list []any
+					for _, e := range es {
+						ent := map[string]any{"structname": e.StructName}
+						if len(e.Data) > 0 {
+							ent["template-data"] = e.Data
+						}
+						list = append(list, ent)
+					}
+					ic["configs"] = list
+				}
+				if len(ic) > 0 {
+					ifs[it.Name] = ic
 				} else {
 					ifs[it.Name] = nil
 				}
